@@ -19,8 +19,11 @@ def judge_strings(strs, plain=False):
     from .. import impl
     n = len(strs)
     given = [s[1:] if (plain and s[0] == "+") else s for s in strs]
-    st = impl.Stabilizer(list(given))
+    passed = list(given)
+    st = impl.Stabilizer(passed)
     msgs = []
+    if passed != given:
+        msgs.append("the constructor changed the list of strings passed in: %r -> %r" % (given, passed))
     if st.num_qubits != n:
         return ["num_qubits = %r" % st.num_qubits]
     out = st.to_list()
